@@ -17,7 +17,7 @@ try:
     have_demo = os.path.exists(demo)
     meta = json.load(open(os.path.join(seed, "meta.json"))) if os.path.exists(os.path.join(seed, "meta.json")) else {}
     # some demonstrations need to be the first test of their process (-run) or another platform (GOARCH=386 runs natively)
-    demo_cmd = "go test -vet=off -count=1 %s ./tests/" % (("-run '%s'" % meta["demo_run"]) if meta.get("demo_run") else "")
+    demo_cmd = "go test -vet=off -count=1 -timeout 20m %s ./tests/" % (("-run '%s'" % meta["demo_run"]) if meta.get("demo_run") else "")
     demo_env = dict(env, **meta.get("demo_env", {}))
     if have_demo:
         shutil.copy(demo, os.path.join(wt, "tests", "zz_demo_test.go"))
